@@ -29,9 +29,13 @@ import (
 )
 
 const (
-	clockBase   = int64(1000000) // virtual ms at the start of every case
-	watchdog    = 3 * time.Second
-	routeOfData = "gate.h.m"
+	clockBase = int64(1000000) // virtual ms at the start of every case
+	// every wait of a case is bounded: the first one that expires marks the case as hung, the
+	// rest of the case is skipped and the case is emitted with hang = true - an observation
+	// the model cannot produce, so it is reported (and shrunk) like any other disagreement
+	watchdog     = 2 * time.Second
+	teardownWait = 500 * time.Millisecond
+	routeOfData  = "gate.h.m"
 )
 
 var initOnce sync.Once
@@ -121,6 +125,7 @@ type world struct {
 	enc    *codec.PomeloPacketEncoder
 	menc   *message.MessagesEncoder
 	tcpNew chan *hconn
+	base   census // session goroutines leaked by EARLIER (broken) cases: not ours
 }
 
 // ---- recording ISessionsHandler ----
@@ -158,7 +163,8 @@ func (h *recHandler) OnSessionRemove(fs *cs.FrontSession) {
 
 func newWorld() *world {
 	initGlobals()
-	w := &world{conns: map[int64]*hconn{}, now: clockBase}
+	w := &world{conns: map[int64]*hconn{}, now: clockBase, base: takeCensus()}
+	w.base.starting = 0
 	common.VerifSetNowMs(w.now)
 	w.sch = sche.NewSche()
 	w.cs = impls.NewClientSessions("front-c05")
@@ -178,6 +184,19 @@ var stackBuf = make([]byte, 1<<20)
 type census struct{ read, write, hb, starting int }
 
 func (c census) total() int { return c.read + c.write + c.hb + c.starting }
+
+func pos(n int) int {
+	if n < 0 {
+		return 0
+	}
+	return n
+}
+
+// census of THIS case: goroutines that earlier cases could not get rid of are not counted
+func (w *world) census() census {
+	c := takeCensus()
+	return census{pos(c.read - w.base.read), pos(c.write - w.base.write), pos(c.hb - w.base.hb), c.starting}
+}
 
 func takeCensus() census {
 	var n int
@@ -227,7 +246,7 @@ func (w *world) stable() bool {
 	}
 	if unresolved > 0 {
 		// in transit, or gone: gone iff the census shows only the parked readers
-		if cen := takeCensus(); cen.starting > 0 || cen.read != parked {
+		if cen := w.census(); cen.starting > 0 || cen.read != parked {
 			return false
 		}
 		for _, t := range w.order {
@@ -263,6 +282,9 @@ func (w *world) stable() bool {
 }
 
 func (w *world) waitFor(cond func() bool) {
+	if w.hang {
+		return // the case is already lost: do not pay for another watchdog
+	}
 	deadline := time.Now().Add(watchdog)
 	for i := 0; ; i++ {
 		if cond() {
@@ -334,7 +356,7 @@ func (w *world) connectWith(tok int64, ticker time.Duration) {
 		session.DefaultHeartbeatTime = ticker
 		defer func() {
 			// heartbeat() has created its ticker once it is parked in its select
-			w.waitFor(func() bool { c := takeCensus(); return c.starting == 0 && c.hb > 0 })
+			w.waitFor(func() bool { c := w.census(); return c.starting == 0 && c.hb > 0 })
 			time.Sleep(2 * time.Millisecond)
 			session.DefaultHeartbeatTime = time.Hour
 		}()
@@ -537,7 +559,10 @@ func (w *world) observe() (fins []any, alive int64) {
 		return n
 	}
 	var last census
-	w.waitFor(func() bool { last = takeCensus(); return last.total() == want() })
+	w.waitFor(func() bool { last = w.census(); return last.total() == want() })
+	if w.hang {
+		last = w.census()
+	}
 	alive = int64(last.total())
 	for _, t := range w.order {
 		k := w.conns[t]
@@ -568,7 +593,7 @@ func (w *world) teardown() (clean bool) {
 		}
 		k.sc.clientClose()
 	}
-	deadline := time.Now().Add(watchdog)
+	deadline := time.Now().Add(teardownWait)
 	for {
 		for _, t := range w.order {
 			if !w.conns[t].tcp {
@@ -577,7 +602,7 @@ func (w *world) teardown() (clean bool) {
 		}
 		for w.frontOne() {
 		}
-		if takeCensus().total() == 0 {
+		if w.census().total() == 0 {
 			clean = true
 			break
 		}
@@ -592,7 +617,8 @@ func (w *world) teardown() (clean bool) {
 
 // Exec runs one fault sequence on fresh real objects.
 // obs = Obs hlog [CFin ...] alive hang leak
-func Exec(ops []hx.T) (obs any, nontrivial bool) {
+// hung: a watchdog expired or the case could not be torn down (time was lost on it).
+func Exec(ops []hx.T) (obs any, nontrivial bool, hung bool) {
 	for _, o := range ops {
 		if o.Name == "OTcp" {
 			startTcp() // the acceptor's own goroutines live for the whole process
@@ -601,16 +627,20 @@ func Exec(ops []hx.T) (obs any, nontrivial bool) {
 	base := runtime.NumGoroutine()
 	w := newWorld()
 	for _, o := range ops {
+		if w.hang {
+			break // the rest of the sequence would only wait for more watchdogs
+		}
 		w.exec(o)
 	}
 	fins, alive := w.observe()
 	hlog := append([]any{}, w.hlog...)
 	hang := w.hang
+	w.hang = false
 	clean := w.teardown()
 	leak := !clean
 	if clean {
 		// every goroutine the case started is gone again
-		d := time.Now().Add(watchdog)
+		d := time.Now().Add(teardownWait)
 		for runtime.NumGoroutine() > base && time.Now().Before(d) {
 			time.Sleep(50 * time.Microsecond)
 		}
@@ -621,5 +651,5 @@ func Exec(ops []hx.T) (obs any, nontrivial bool) {
 			nontrivial = true
 		}
 	}
-	return hx.C("Obs", hlog, fins, alive, hang, leak), nontrivial
+	return hx.C("Obs", hlog, fins, alive, hang, leak), nontrivial, hang || leak
 }
